@@ -88,7 +88,7 @@ theorem flushLoop_none (hC : EncContract C Dec) {bufsz : Nat} (hb : 0 < bufsz) {
     (rest sink : Bytes) (hR : hC.R cs x y false) :
     ∃ f cs' o, flushLoop C bufsz false f cs rest sink = some (.ok (cs', [], sink ++ o)) ∧
       hC.R cs' (x ++ rest) (y ++ o) false := by
-  have hP : ∀ inp, Proto false Flush.none inp := fun _ h => by cases h
+  have hP : ∀ inp, Proto false Flush.none inp := fun _ => ⟨by decide, fun h => by cases h⟩
   have := iter_total (flushBody C bufsz false)
     (fun a => ∃ x' o', hC.R a.1 x' (y ++ o') false ∧ x' ++ a.2.1 = x ++ rest ∧ a.2.2 = sink ++ o')
     (fun r => ∃ cs' o, r = .ok (cs', [], sink ++ o) ∧ hC.R cs' (x ++ rest) (y ++ o) false)
@@ -149,7 +149,7 @@ theorem flushLoop_full (hC : EncContract C Dec) {bufsz : Nat} (hb : 0 < bufsz) {
     exact ⟨f, cs', o, hf, hR', hd⟩
   · rintro ⟨cs1, rest1, sink1⟩ ⟨x', o', fin, hR1, hx, hs, hfin⟩
     simp only at hR1 hx hs hfin
-    have hP : Proto fin Flush.full rest1 := fun h => ⟨rfl, hfin h⟩
+    have hP : Proto fin Flush.full rest1 := ⟨by decide, fun h => ⟨rfl, hfin h⟩⟩
     rw [flushBody_true]
     have herr := hC.no_error rest1 bufsz Flush.full hR1 hP
     have hcl := hC.consumed_le rest1 bufsz Flush.full hR1 hP
@@ -542,8 +542,8 @@ theorem G_step_none (hD : DecContract C Dec) (E : Doom hD) {K : Kind} (hen : K =
       ⟨u, v, w', w'', x, hK, hR, hdec, hpre, hw'', hne, hrest, hrem, hj⟩ | ⟨_, _, hrest, _⟩ | ⟨hK, hrem, hB⟩
   · -- inside a complete member
     have hip : IsPre (rest.take n) (w ++ (ms.flatten ++ t)) := by rw [← hrest]; exact IsPre.take _ _
-    obtain ⟨h1, h2, h3, h4, h5, h6, h7, h8⟩ := hD.valid w x (ms.flatten ++ t) (rest.take n) room Flush.none hR hdec hip (fun h => by cases h)
-    have hprog := hD.progress w x (ms.flatten ++ t) (rest.take n) room Flush.none hR hdec hip (fun h => by cases h) hroom hinp
+    obtain ⟨h1, h2, h3, h4, h5, h6, h7, h8⟩ := hD.valid w x (ms.flatten ++ t) (rest.take n) room Flush.none (by decide) hR hdec hip (fun h => by cases h)
+    have hprog := hD.progress w x (ms.flatten ++ t) (rest.take n) room Flush.none (by decide) hR hdec hip (fun h => by cases h) hroom hinp
     rw [← hr] at h1 h2 h3 h4 h5 h6 h7 h8 hprog
     right
     refine ⟨h1, h4, by omega, ?_, h8, by rcases hprog with h | h; exact Or.inl h; exact Or.inr (Or.inl h)⟩
@@ -568,8 +568,8 @@ theorem G_step_none (hD : DecContract C Dec) (E : Doom hD) {K : Kind} (hen : K =
   · -- inside the cut-off member
     have hip : IsPre (rest.take n) ((w' ++ w'') ++ []) := by
       rw [← hrest]; exact (IsPre.take _ _).append_right _ |>.append_right _
-    obtain ⟨h1, h2, h3, h4, h5, h6, h7, h8⟩ := hD.valid (w' ++ w'') x [] (rest.take n) room Flush.none hR hdec hip (fun h => by cases h)
-    have hprog := hD.progress (w' ++ w'') x [] (rest.take n) room Flush.none hR hdec hip (fun h => by cases h) hroom hinp
+    obtain ⟨h1, h2, h3, h4, h5, h6, h7, h8⟩ := hD.valid (w' ++ w'') x [] (rest.take n) room Flush.none (by decide) hR hdec hip (fun h => by cases h)
+    have hprog := hD.progress (w' ++ w'') x [] (rest.take n) room Flush.none (by decide) hR hdec hip (fun h => by cases h) hroom hinp
     rw [← hr] at h1 h2 h3 h4 h5 h6 h7 h8 hprog
     have hw''l : 0 < w''.length := by
       cases w'' with
@@ -638,7 +638,7 @@ theorem G_step_full (hD : DecContract C Dec) (E : Doom hD) {K : Kind} {cs : σ} 
     obtain ⟨hKv, hxT⟩ := hKv
     subst hw ht hms0 hxs0 hxT
     simp only [List.append_nil, List.flatten_nil] at hdec hrem
-    obtain ⟨h1, h2, h3, h4, h5, h6, h7, h8⟩ := hD.valid [] x [] [] room Flush.full hR (by simpa using hdec) (IsPre.nil _) (fun _ => by simp)
+    obtain ⟨h1, h2, h3, h4, h5, h6, h7, h8⟩ := hD.valid [] x [] [] room Flush.full (by decide) hR (by simpa using hdec) (IsPre.nil _) (fun _ => by simp)
     have hdrain := hD.drain x room hR hdec hroom
     rw [← hr] at h1 h2 h3 h4 h5 h6 h7 h8 hdrain
     right
@@ -890,6 +890,19 @@ theorem iGet_spec (S : StreamDecContract C Dec) {bufsz : Nat} (hb : 0 < bufsz) {
       obtain ⟨h1, h2⟩ := hpre
       split at h2 <;> omega
 
+/-- the number of reader rounds that take at least one byte (when there is one) -/
+def takingRounds (ops : List (Nat × Nat)) : Nat := (ops.filter (fun op => decide (0 < op.2))).length
+
+theorem takingRounds_all {ops : List (Nat × Nat)} (h : ∀ op ∈ ops, 0 < op.2) : takingRounds ops = ops.length := by
+  unfold takingRounds
+  rw [List.filter_eq_self.2 (fun op hop => by simpa using h op hop)]
+
+theorem takingRounds_append (a b : List (Nat × Nat)) : takingRounds (a ++ b) = takingRounds a + takingRounds b := by
+  simp [takingRounds]
+
+theorem takingRounds_replicate (n want take : Nat) (ht : 0 < take) : takingRounds (List.replicate n (want, take)) = n := by
+  rw [takingRounds_all (fun op hop => by rw [List.eq_of_mem_replicate hop]; exact ht), List.length_replicate]
+
 theorem iRead_spec (S : StreamDecContract C Dec) {bufsz : Nat} (hb : 0 < bufsz) {K : Kind} (X : Bytes) (J : Nat)
     (hJ : K ≠ Kind.corrupt → J = 0) :
     ∀ (ops : List (Nat × Nat)) (st : IState σ) (rem : Bytes) (j : Nat) (acc : Bytes), IInv S K bufsz st rem j →
@@ -897,12 +910,12 @@ theorem iRead_spec (S : StreamDecContract C Dec) {bufsz : Nat} (hb : 0 < bufsz) 
       ∃ f0 r, (∀ f, f0 ≤ f → iRead C bufsz f st ops acc = some r) ∧
         ((r = .error errCompressor ∧ K ≠ Kind.valid) ∨
          ∃ st' acc' eof, r = .ok (st', acc', eof) ∧ Deliv X J acc' ∧ (eof = true → K = Kind.valid ∧ acc' = X) ∧
-           ((∀ op ∈ ops, 0 < op.2) → eof = true ∨ acc.length + ops.length ≤ acc'.length)) := by
+           (eof = true ∨ acc.length + takingRounds ops ≤ acc'.length)) := by
   intro ops
   induction ops with
   | nil =>
     intro st rem j acc _ hX _
-    exact ⟨0, _, fun f _ => rfl, Or.inr ⟨st, acc, false, rfl, hX.deliv ⟨_, rfl⟩, (by intro h; cases h), fun _ => Or.inr (by simp)⟩⟩
+    exact ⟨0, _, fun f _ => rfl, Or.inr ⟨st, acc, false, rfl, hX.deliv ⟨_, rfl⟩, (by intro h; cases h), Or.inr (by simp [takingRounds])⟩⟩
   | cons op ops ih =>
     intro st rem j acc hI hX hw
     obtain ⟨want, take⟩ := op
@@ -916,7 +929,7 @@ theorem iRead_spec (S : StreamDecContract C Dec) {bufsz : Nat} (hb : 0 < bufsz) 
       · -- end of stream reported
         have hvn : st1.buf.drop st1.off = [] := List.eq_nil_of_length_eq_zero hv
         obtain ⟨hKv, hr⟩ := hempty (hw (want, take) (List.mem_cons_self ..)) hvn
-        refine ⟨f1, .ok (st1, acc, true), fun f hf => ?_, Or.inr ⟨st1, acc, true, rfl, hX1.deliv ⟨_, rfl⟩, ?_, fun _ => Or.inl rfl⟩⟩
+        refine ⟨f1, .ok (st1, acc, true), fun f hf => ?_, Or.inr ⟨st1, acc, true, rfl, hX1.deliv ⟨_, rfl⟩, ?_, Or.inl rfl⟩⟩
         · simp only [iRead, hrun1 f hf, hv, decide_true, if_true]
         · intro _
           refine ⟨hKv, ?_⟩
@@ -943,14 +956,24 @@ theorem iRead_spec (S : StreamDecContract C Dec) {bufsz : Nat} (hb : 0 < bufsz) 
           exact hrun2 f (by omega)
         · rcases hpost2 with h | ⟨st', acc', eof, rfl, hp, he, hlive⟩
           · exact Or.inl h
-          · refine Or.inr ⟨st', acc', eof, rfl, hp, he, fun ht => ?_⟩
-            rcases hlive (fun op hop => ht op (List.mem_cons_of_mem _ hop)) with h | h
+          · refine Or.inr ⟨st', acc', eof, rfl, hp, he, ?_⟩
+            rcases hlive with h | h
             · exact Or.inl h
             · right
-              have ht0 : 0 < take := ht (want, take) (List.mem_cons_self ..)
-              have : 0 < n := by simp only [n]; omega
-              simp only [List.length_append, List.length_take, List.length_cons] at h ⊢
-              omega
+              have hcount : takingRounds ((want, take) :: ops) = (if 0 < take then 1 else 0) + takingRounds ops := by
+                unfold takingRounds
+                by_cases ht0 : 0 < take
+                · simp [ht0]; omega
+                · simp [ht0]
+              rw [hcount]
+              simp only [List.length_append, List.length_take] at h
+              by_cases ht0 : 0 < take
+              · have : 0 < n := by simp only [n]; omega
+                simp only [n] at this
+                rw [if_pos ht0]
+                omega
+              · rw [if_neg ht0]
+                omega
 
 end DecSide
 
@@ -1100,7 +1123,7 @@ def encContract (P : Params) : EncContract (encoder P) decode where
           have := hfin
           simp only [encFin, Bool.or_eq_true, Bool.and_eq_true, decide_eq_true_eq] at this
           rcases this with h | h
-          · obtain ⟨h1, h2⟩ := hP (hR.2 h)
+          · obtain ⟨h1, h2⟩ := hP.2 (hR.2 h)
             exact ⟨h1, by rw [encN_fin h, h2]; rfl⟩
           · exact h
         refine ⟨by rw [hfl.1]; simp, hfl.2, by simp [EncR, encBytes], ?_⟩
@@ -1537,7 +1560,7 @@ def decContract (P : Params) : DecContract (decoder P) decode where
   init := DecR_fresh
   dec_nil := by simp [decode]
   valid := by
-    intro s u v w x tail inp room fl hR hd hin hfl
+    intro s u v w x tail inp room fl hns hR hd hin hfl
     show (decStep P s inp room fl).res ≠ Res.error ∧ (decStep P s inp room fl).consumed ≤ inp.length ∧
       (decStep P s inp room fl).consumed ≤ w.length ∧ (decStep P s inp room fl).out.length ≤ room ∧
       IsPre (v ++ (decStep P s inp room fl).out) x ∧
@@ -1604,7 +1627,7 @@ def decContract (P : Params) : DecContract (decoder P) decode where
         exact ⟨s.q ++ z, by simp [hz, List.append_assoc]⟩
       · simpa using hR
   progress := by
-    intro s u v w x tail inp room fl hR hd hin hfl hr hne
+    intro s u v w x tail inp room fl hns hR hd hin hfl hr hne
     show 0 < (decStep P s inp room fl).consumed ∨ decPend (decStep P s inp room fl).st < decPend s
     obtain ⟨_, hq2, _⟩ := DecR_facts hR hd
     obtain ⟨c1, c2, c3, c4, c5, c6, c7, c8, c9, c10, c11, c12⟩ := decCore_spec P hR hd inp tail hin room
